@@ -71,8 +71,8 @@ def _has_class_subtraction(p: str) -> bool:
 
 def run(ctx):
     sm, sc, res = ctx.sm, ctx.schema, ctx.res
-    res.assume("two-sided exactness for arbitrary values (whitespace collapsing of tokens, xs:date arithmetic, unions over arbitrary values) quantifies over "
-               "value sets, not shapes, and is not decided")
+    res.assume("two-sided exactness for arbitrary values (xs:date arithmetic, unions over arbitrary values, the collapsed form of every token) quantifies over "
+               "value sets, not shapes, and is not decided; of the token collapse the character set is decided (R-TEXT.collapse-set)")
     c03._simple_types(ctx)                      # T7: which gate each of the 151 types inherits
     facet_dispatch(ctx)
     anchored_matching(ctx)
